@@ -150,6 +150,66 @@ def r20_5(chk, P, E):
     chk.ob('R20.5', 'records', 'no-second-copy-of-flag', not other, 'lib/codec_internal.h', f'other fields named *halfrate*: {[f["name"] for f in other]}')
 
 
+def r20_8(chk, P, rule='R20.8'):
+    chk.rule(rule, 'the half-rate request survives a change of link while streaming: in every function of vorbisfile.c that discards '
+             'the handle\'s info (vorbis_info_clear on vf->vi) and can go on to build a decoder, no call of _make_decode_ready is '
+             'reachable on a path on which the info was discarded and vorbis_synthesis_halfrate has not been applied to the new '
+             'info since (K2 flags); and the flag value handed to that call derives only from vorbis_synthesis_halfrate_p read '
+             'before the discard (reaching definitions).  The request is stored in the info; a fresh info decodes at full rate')
+    import absint
+    import k2
+    import prov
+    n = 0
+
+    def on_handle_info(F, a):
+        nd = F.ex[F.strip_casts(a)]
+        while nd['k'] == 'bin' and nd['op'] == '+':
+            nd = F.ex[F.strip_casts(nd['c'][0])]
+        return nd['k'] == 'member' and nd.get('record') == 'OggVorbis_File' and nd['field'] == 'vi'
+    for F in P.functions():
+        if not F.file.endswith('vorbisfile.c'):
+            continue
+        clears = [c for c in F.calls('vorbis_info_clear') if F.ex[c]['c'] and on_handle_info(F, F.ex[c]['c'][0])]
+        ready = list(F.calls('_make_decode_ready'))
+        if not clears or not ready:
+            continue
+
+        class H(k2.Flags):
+            def on_node(self, A, env, e, v):
+                fl = env.get('$flags', frozenset())
+                nd = A.ex[e]
+                if nd['k'] == 'call':
+                    if e in ready and A.final:
+                        self.at.setdefault(e, set()).add(fl)
+                    if e in clears:
+                        fl = fl | {'lost'}
+                    elif nd['callee'].get('d') == 'vorbis_synthesis_halfrate' and nd['c'] and on_handle_info(F, nd['c'][0]):
+                        fl = fl - {'lost'}
+                env['$flags'] = fl
+        h = H([])
+        A = absint.Analyzer(P, F, hooks=h, partition=k2.partition)
+        A.run()
+        for e in sorted(ready, key=lambda x: F.ex[x]['loc']):
+            sets = h.at.get(e, set())
+            bad = [fl for fl in sets if 'lost' in fl]
+            n += 1
+            chk.ob(rule, F.name, f'decoder-built-from-info-with-the-request@{F.loc(e)}', not bad, F.where(e),
+                   f'on all {len(sets)} path classes the info in use still carries the half-rate request or received it again' if not bad else
+                   f'_make_decode_ready is reachable after vorbis_info_clear(vf->vi) (line {F.loc(clears[0])}) without '
+                   'vorbis_synthesis_halfrate on the new info: after a link boundary in streaming mode the next link decodes at full rate')
+        restores = [c for c in F.calls('vorbis_synthesis_halfrate') if F.ex[c]['c'] and on_handle_info(F, F.ex[c]['c'][0])]
+        if restores:
+            pr = prov.Prov(P, F, lambda F_, n_: None, lambda F_, c_: set())
+            for c in restores:
+                atoms = pr.prov_at(F.ex[c]['c'][1], c)
+                ok = atoms == frozenset({('ret', 'vorbis_synthesis_halfrate_p')})
+                n += 1
+                chk.ob(rule, F.name, f'restored-value-is-the-saved-request@{F.loc(c)}', ok, F.where(c),
+                       'the flag argument derives only from vorbis_synthesis_halfrate_p (or the constant initialiser)' if ok else
+                       f'the flag argument derives from {sorted(map(str, atoms))}, not (only) from the request read with vorbis_synthesis_halfrate_p')
+    return n
+
+
 def run(chk, P):
     E = getattr(P, '_effects', None) or k3.Effects(P)
     P._effects = E
@@ -169,6 +229,8 @@ def run(chk, P):
     from rules import c08
     c08.r08_8(common.Proxy(chk, 'R20.7'), P)
     chk.floor('R20.7', 1)
+    r20_8(chk, P)
+    chk.floor('R20.8', 1)
     chk.trusted += ['clang 14 front end', 'call graph', 'K4 intervals with symbolic bounds']
     return ('Units-of-measure typing separates stream samples from decoder-output samples and requires the half-rate shift at '
             'every crossing; path and order rules decide that a refused toggle changes nothing, rolls back all links, and that '
